@@ -8,7 +8,7 @@ ENV = dict(os.environ, GOFLAGS='-mod=mod', GOPROXY='off', GOSUMDB='off', GOTOOLC
 ROOT = '/verif/seeded'
 def sh(cmd, cwd=None, timeout=3600):
     try:
-        p = subprocess.run(cmd, shell=True, cwd=cwd, env=ENV, capture_output=True, text=True, timeout=timeout)
+        p = subprocess.run(cmd, shell=True, cwd=cwd, env=ENV, capture_output=True, text=True, errors='replace', timeout=timeout)
     except subprocess.TimeoutExpired as e:
         return 124, 'TIMEOUT ' + str(e)
     return p.returncode, p.stdout + p.stderr
